@@ -69,9 +69,16 @@ Record rule := {
 
 (* ---------- pipelines ---------- *)
 Inductive rcond := RAlways | RProduct (p : N) | RState (k v : str).
+(* query postprocessing items (entries of `postprocessing_items`; in a pipeline definition of this model they follow
+   the processing items and share the owner-link bookkeeping): embed with a prefix; a template
+   "ix=[{{ pipeline.state.K }}] {{ query }}" reading the state of the pipeline the item is bound to; `nest`, whose
+   nested items (identifier, rule condition, transformation) are bound to the nest transformation's own pipeline object *)
+Inductive post0 := P0Embed (pre : str) | P0Tpl (k : str).
+Inductive post := PTop (p : post0) | PNest (l : list (str * rcond * post0)).
 Inductive trans := TSetState (k v : str) | TFieldMap (m : list (str * str)) | TFail | TFile (d : N) | TVars
                  | TSetField (l : list str) | TAddField (l : list str) | TRemoveField (l : list str)
-                 | TSetAttr (k v : str) | TSetProduct (p : N).
+                 | TSetAttr (k v : str) | TSetProduct (p : N)
+                 | TPost (p : post).
    (* set_field / add_field / remove_field / set_custom_attribute / change_logsource: they change the rule
       only; the rule gets copies of the configured values (sigma/processing/transformations/fields.py, rule.py) *)
    (* TFile d: file_placeholders transformation reading external source d;
@@ -125,12 +132,13 @@ Definition note_applied (it : item) (m : bool) (ps : pstate) : pstate :=
      ps_ids := if m then sadd (i_id it) (ps_ids ps) else ps_ids ps;
      ps_state := ps_state ps; ps_fmap := ps_fmap ps; ps_rev := ps_rev ps; ps_fna := ps_fna ps |}.
 
-Definition eval_rcond (rd : pstate) (r : rule) (c : rcond) : bool :=
+Definition eval_rcond_st (st : list (str * str)) (r : rule) (c : rcond) : bool :=
   match c with
   | RAlways => true
   | RProduct p => N.eqb (r_product r) p
-  | RState k v => match lookup k (ps_state rd) with Some v' => str_eqb v' v | None => false end
+  | RState k v => match lookup k st with Some v' => str_eqb v' v | None => false end
   end.
+Definition eval_rcond (rd : pstate) (r : rule) (c : rcond) : bool := eval_rcond_st (ps_state rd) r c.
 
 Definition map_item (m : list (str * str)) (d : ditem) : ditem :=
   match lookup (di_field d) m with
@@ -204,6 +212,7 @@ Definition item_step (rd : pstate) (pv : vars) (r : rule) (it : item) (vals : ou
     | TVars =>
         {| is_match := true; is_upd := fun ps => ps;
            is_res := if ph_missing pv r then inr E_Value else inl (expand_rule_vars pv r) |}
+    | TPost _ => {| is_match := true; is_upd := fun ps => ps; is_res := inl r |}   (* never applied as a processing item *)
     | TSetField l => {| is_match := true; is_upd := fun ps => ps; is_res := inl (with_fields r l) |}
     | TAddField l => {| is_match := true; is_upd := fun ps => ps; is_res := inl (with_fields r (r_fields r ++ l)) |}
     | TRemoveField l =>
@@ -282,29 +291,30 @@ Record world := {
   w_ps : nat -> pstate;                (* per-rule fields of each last_processing_pipeline object *)
   w_vc : iid -> option (list str);     (* _values_cache of each external-source transformation object *)
   w_pvars : nat -> vars;               (* vars dict of each last_processing_pipeline object *)
+  w_nest : iid -> list (str * str) * list str;   (* state and applied_ids of the nested pipeline object of each `nest` item *)
   w_next : nat;
   w_bks : list backend }.
 
 Definition init : world :=
   {| w_cache := []; w_hits := 0; w_miss := 0; w_hints := []; w_tpl := fun _ => tpl0;
-     w_owner := fun _ => None; w_ps := fun _ => ps0; w_vc := fun _ => None; w_pvars := fun _ => []; w_next := 0%nat; w_bks := [] |}.
+     w_owner := fun _ => None; w_ps := fun _ => ps0; w_vc := fun _ => None; w_pvars := fun _ => []; w_nest := fun _ => ([], []); w_next := 0%nat; w_bks := [] |}.
 
 Definition set_ps (w : world) (p : nat) (v : pstate) : world :=
   {| w_cache := w_cache w; w_hits := w_hits w; w_miss := w_miss w; w_hints := w_hints w;
      w_tpl := w_tpl w; w_owner := w_owner w;
-     w_ps := fun q => if Nat.eqb q p then v else w_ps w q; w_vc := w_vc w; w_pvars := w_pvars w; w_next := w_next w; w_bks := w_bks w |}.
+     w_ps := fun q => if Nat.eqb q p then v else w_ps w q; w_vc := w_vc w; w_pvars := w_pvars w; w_nest := w_nest w; w_next := w_next w; w_bks := w_bks w |}.
 Definition set_tplw (w : world) (tp : N -> tpls) : world :=
   {| w_cache := w_cache w; w_hits := w_hits w; w_miss := w_miss w; w_hints := w_hints w;
-     w_tpl := tp; w_owner := w_owner w; w_ps := w_ps w; w_vc := w_vc w; w_pvars := w_pvars w; w_next := w_next w; w_bks := w_bks w |}.
+     w_tpl := tp; w_owner := w_owner w; w_ps := w_ps w; w_vc := w_vc w; w_pvars := w_pvars w; w_nest := w_nest w; w_next := w_next w; w_bks := w_bks w |}.
 Definition set_bks (w : world) (l : list backend) : world :=
   {| w_cache := w_cache w; w_hits := w_hits w; w_miss := w_miss w; w_hints := w_hints w;
-     w_tpl := w_tpl w; w_owner := w_owner w; w_ps := w_ps w; w_vc := w_vc w; w_pvars := w_pvars w; w_next := w_next w; w_bks := l |}.
+     w_tpl := w_tpl w; w_owner := w_owner w; w_ps := w_ps w; w_vc := w_vc w; w_pvars := w_pvars w; w_nest := w_nest w; w_next := w_next w; w_bks := l |}.
 Definition set_hints (w : world) (l : list (N * N)) : world :=
   {| w_cache := w_cache w; w_hits := w_hits w; w_miss := w_miss w; w_hints := l;
-     w_tpl := w_tpl w; w_owner := w_owner w; w_ps := w_ps w; w_vc := w_vc w; w_pvars := w_pvars w; w_next := w_next w; w_bks := w_bks w |}.
+     w_tpl := w_tpl w; w_owner := w_owner w; w_ps := w_ps w; w_vc := w_vc w; w_pvars := w_pvars w; w_nest := w_nest w; w_next := w_next w; w_bks := w_bks w |}.
 Definition set_cache (w : world) (c : list (str * ptree)) (h m : N) : world :=
   {| w_cache := c; w_hits := h; w_miss := m; w_hints := w_hints w;
-     w_tpl := w_tpl w; w_owner := w_owner w; w_ps := w_ps w; w_vc := w_vc w; w_pvars := w_pvars w; w_next := w_next w; w_bks := w_bks w |}.
+     w_tpl := w_tpl w; w_owner := w_owner w; w_ps := w_ps w; w_vc := w_vc w; w_pvars := w_pvars w; w_nest := w_nest w; w_next := w_next w; w_bks := w_bks w |}.
 
 Definition rd_vars (w : world) (o : option nat) : vars :=
   match o with Some p => w_pvars w p | None => [] end.
@@ -316,7 +326,7 @@ Definition wr_owner (w : world) (o : option nat) (f : pstate -> pstate) : world 
 Definition set_vc (w : world) (i : iid) (v : list str) : world :=
   {| w_cache := w_cache w; w_hits := w_hits w; w_miss := w_miss w; w_hints := w_hints w;
      w_tpl := w_tpl w; w_owner := w_owner w; w_ps := w_ps w;
-     w_vc := fun j => if iid_eqb j i then Some v else w_vc w j; w_pvars := w_pvars w; w_next := w_next w; w_bks := w_bks w |}.
+     w_vc := fun j => if iid_eqb j i then Some v else w_vc w j; w_pvars := w_pvars w; w_nest := w_nest w; w_next := w_next w; w_bks := w_bks w |}.
 (* ExternalSourceBaseTransformation._get_values of transformation object i reading source d: the cache is
    consulted first; it is written only when security check, fetch, parse and filter all succeeded *)
 Definition get_values (E : env) (w : world) (i : iid) (d : N) : world * outcome (list str) :=
@@ -329,6 +339,7 @@ Definition get_values (E : env) (w : world) (i : iid) (d : N) : world * outcome 
             end
   end.
 
+Definition is_post (it : item) : bool := match i_tr it with TPost _ => true | _ => false end.
 (* what the transformation of item object i gets from _get_values(), if it asks at all *)
 Definition fetch_vals (E : env) (w : world) (i : iid) (it : item) (rd : pstate) (r : rule)
   : world * outcome (list str) :=
@@ -343,6 +354,7 @@ Fixpoint apply_items (E : env) (w : world) (L : nat) (r : rule) (its : list (iid
   match its with
   | [] => (w, inl r)
   | (i, it) :: rest =>
+      if is_post it then apply_items E w L r rest else      (* postprocessing items are not part of `items` *)
       let o := w_owner w i in
       let rd := rd_owner w o in
       let '(w0, vals) := fetch_vals E w i it rd r in
@@ -381,6 +393,7 @@ Definition init_pipeline (E : env) (w : world) (b : nat) (bk : backend) (fmt : N
      w_ps := fun q => if Nat.eqb q L then ps0 else w_ps w q;
      w_vc := w_vc w;
      w_pvars := fun q => if Nat.eqb q L then init_vars E (b_cls bk) (b_user bk) (b_opts bk) fmt else w_pvars w q;
+     w_nest := w_nest w;
      w_next := S L;
      w_bks := set_nth b {| b_cls := b_cls bk; b_user := b_user bk; b_collect := b_collect bk; b_opts := b_opts bk;
                            b_last := Some (L, fmt) |} (w_bks w) |}.
@@ -584,6 +597,59 @@ Fixpoint conv_conds (E : env) (cls : N) (dets : list (str * list ditem)) (fin : 
 
 (* Backend.convert_rule up to the except clauses: the pipeline object is built only when there is
    none yet; otherwise the existing one is used whatever format it was built for *)
+(* ---------- query postprocessing (ProcessingPipeline.postprocess_query, called by Backend.finalize_query) ---------- *)
+Definition post0_apply (st : list (str * str)) (p : post0) (q : str) : str :=
+  match p with
+  | P0Embed pre => pre ++ q
+  | P0Tpl k => lit "ix=[" ++ getd [] k st ++ lit "] " ++ q
+  end.
+Definition add_ids (l : list str) (ps : pstate) : pstate :=
+  {| ps_applied := ps_applied ps; ps_ids := fold_left (fun ids x => sadd x ids) l (ps_ids ps); ps_state := ps_state ps;
+     ps_fmap := ps_fmap ps; ps_rev := ps_rev ps; ps_fna := ps_fna ps |}.
+(* nested.postprocess_query: the nested items' conditions and templates see the NESTED pipeline's state; applied
+   identifiers are added to the nested pipeline's applied_ids *)
+Fixpoint nest_run (nst : list (str * str)) (r : rule) (q : str) (l : list (str * rcond * post0)) (ids : list str)
+  : str * list str :=
+  match l with
+  | [] => (q, ids)
+  | (id, c, p) :: rest =>
+      if eval_rcond_st nst r c then nest_run nst r (post0_apply nst p q) rest (sadd id ids) else nest_run nst r q rest ids
+  end.
+Definition set_nest (w : world) (i : iid) (v : list (str * str) * list str) : world :=
+  {| w_cache := w_cache w; w_hits := w_hits w; w_miss := w_miss w; w_hints := w_hints w;
+     w_tpl := w_tpl w; w_owner := w_owner w; w_ps := w_ps w; w_vc := w_vc w; w_pvars := w_pvars w;
+     w_nest := fun j => if iid_eqb j i then v else w_nest w j; w_next := w_next w; w_bks := w_bks w |}.
+(* postprocess_query of pipeline object L on one query: a top-level item reads the state of the pipeline its owner link
+   points to; `nest` runs its nested pipeline (whose state nothing writes, and whose applied_ids are handed to the owner
+   and then reset), then L notes the item's identifier *)
+Fixpoint post_items (w : world) (L : nat) (r : rule) (q : str) (its : list (iid * item)) : world * str :=
+  match its with
+  | [] => (w, q)
+  | (i, it) :: rest =>
+      match i_tr it with
+      | TPost p =>
+          let o := w_owner w i in
+          let rd := rd_owner w o in
+          if eval_rcond rd r (i_cond it) then
+            let '(w1, q1) :=
+              match p with
+              | PTop p0 => (w, post0_apply (ps_state rd) p0 q)
+              | PNest l =>
+                  let '(q', nids) := nest_run (fst (w_nest w i)) r q l (snd (w_nest w i)) in
+                  (set_nest (wr_owner w o (add_ids nids)) i (fst (w_nest w i), []), q')
+              end in
+            post_items (set_ps w1 L (add_ids [i_id it] (w_ps w1 L))) L r q1 rest
+          else post_items w L r q rest
+      | _ => post_items w L r q rest
+      end
+  end.
+Fixpoint post_all (w : world) (L : nat) (r : rule) (qs : list str) (its : list (iid * item)) : world * list str :=
+  match qs with
+  | [] => (w, [])
+  | q :: rest => let '(w1, q1) := post_items w L r q its in
+                 let '(w2, l) := post_all w1 L r rest its in (w2, q1 :: l)
+  end.
+
 Definition conv_with (E : env) (w : world) (L : nat) (lfmt : N) (bk : backend) (fmt : N) (r : rule)
   : world * outcome (list str) :=
   let w2 := set_ps w L ps0 in
@@ -593,7 +659,13 @@ Definition conv_with (E : env) (w : world) (L : nat) (lfmt : N) (bk : backend) (
   | inl r' =>
       let st := ps_state (w_ps w3 L) in
       let '(w4, qs) := conv_conds E (b_cls bk) (r_dets r') (finish_query E (b_cls bk) st) w3 (r_conds r') in
-      (w4, obind qs (fun l => Ok (map (finalize fmt st r') l)))
+      match qs with
+      | Ok l => (* Backend.finalize_query: finalize_query_<format>, then the pipeline's postprocessing items *)
+                let '(w5, l') := post_all w4 L r' (map (finalize fmt st r') l) (pipe_pairs E (b_cls bk) (b_user bk) lfmt) in
+                (w5, Ok l')
+      | SigmaErr e => (w4, SigmaErr e)
+      | Crash e => (w4, Crash e)
+      end
   end.
 Definition conv_rule_raw (E : env) (w : world) (b : nat) (bk : backend) (fmt : N) (r : rule)
   : world * outcome (list str) :=
